@@ -29,7 +29,7 @@ Ltac ifclosed :=
       first [ rewrite (proj2 (Rltb_false a b)) by lra | rewrite (proj2 (Rltb_true a b)) by lra ]
   end.
 Ltac mylra := first [ assumption | zclosed; ifclosed; pylra ].
-Ltac myrun := pyrun_using mylra.
+Ltac myrun := pyrunv_using mylra.
 
 Lemma Rtrunc_nonneg x : 0 <= x -> Rtrunc x = Rfloor x.
 Proof. intro H. unfold Rtrunc. destruct (Rlt_dec x 0); [lra | reflexivity]. Qed.
